@@ -939,10 +939,11 @@ pub fn snapshot(env: &mut Env<VS>) -> BTreeMap<String, String> {
         .functions
         .iter()
         .map(|f| {
+            // (the syntax tree itself, locations erased: independent of how the body prints)
             format!(
                 "{}(){{{}}}{}",
                 f.name,
-                f.body,
+                crate::checks::c06::scrub(&format!("{:?}", f.body)),
                 if f.read_only_location.is_some() { " ro" } else { "" }
             )
         })
